@@ -31,11 +31,11 @@ def run(ctx):
     )
     run.trusted_base = ["CPython ast", "str.format/rstrip/ljust/slice semantics as encoded in the abstract string domain"]
     run.assumptions = ["datetime.microsecond is an int in 0..999999"]
-    rule_branch_table(ctx)
-    rule_truncate(ctx)
-    rule_utc(ctx)
-    rule_api_domain(ctx)
-    rule_property_forward(ctx)
+    ctx.do(rule_branch_table)
+    ctx.do(rule_truncate)
+    ctx.do(rule_utc)
+    ctx.do(rule_api_domain)
+    ctx.do(rule_property_forward)
 
 
 class AStr(object):
